@@ -190,8 +190,10 @@ func (a *WALBatchApplier) ApplyEntries(entries []*replication_proto.WALEntry, ap
 	// Process entries in order
 	var lastAppliedSeq uint64
 	for i, protoEntry := range entries {
-		// Verify entries are in sequence
-		if i > 0 && protoEntry.SequenceNumber != entries[i-1].SequenceNumber+1 {
+		// Verify entries are in sequence. The entries of one transaction share
+		// a single sequence number, so a repeated number is not a gap.
+		if i > 0 && protoEntry.SequenceNumber != entries[i-1].SequenceNumber+1 &&
+			protoEntry.SequenceNumber != entries[i-1].SequenceNumber {
 			// Gap within the batch
 			hasGap = true
 			return a.maxAppliedSeq, hasGap, fmt.Errorf("sequence gap within batch: %d -> %d",
